@@ -118,6 +118,38 @@ def history_campaign(ctx, out, judge, *, n_hist, n_steps, profiles, labels_sets,
                 out.fail(dict(cfg=pub(cfg), log=log), f"[{tag}] {text}", finding=finding)
 
 
+# fixed histories shared by the history checks: calls ON nodes that were removed earlier (stale handles kept by a caller)
+_BUILD = [{"op": "w.add", "t": 0, "p": [], "a": 0}, {"op": "w.add", "t": 0, "p": [0], "a": 6}, {"op": "w.add", "t": 0, "p": [0, 0], "a": 2},
+          {"op": "w.add", "t": 0, "p": [], "a": 1}, {"op": "w.add", "t": 0, "p": [1], "a": 7}]
+STALE_HANDLE_HISTORIES = []
+for _rm in ({"op": "w.removechildren", "t": 0, "n": [], "tree_api": True},       # Tree.clear(): graveyard = [A, a1, C, B, a2]
+            {"op": "w.removechildren", "t": 0, "n": [0], "tree_api": False},     # A.remove_children(): graveyard = [a1, C]
+            {"op": "w.remove", "t": 0, "n": [0], "keep": False, "clones": False},   # A.remove(): graveyard = [A, a1, C]
+            {"op": "w.del", "t": 0, "a": 0}):                                      # del tree["A"]
+    for _k in (0, 1, 2):
+        for _what in ("add", "move", "set_data", "remove", "remove_children"):
+            STALE_HANDLE_HISTORIES.append(_BUILD + [_rm, {"op": "w.dead", "t": 0, "k": _k, "what": _what, "to": [], "a": 3},
+                                                    {"op": "w.add", "t": 0, "p": [], "a": 3}, {"op": "w.add", "t": 0, "p": [], "a": 6}])
+
+
+def fixed_histories(ctx, out, judge, logs, cfgs=(dict(typed=False, hook=None, trees=2),)):
+    """run hand-made histories (every step judged); failures are recorded with the prefix that fails"""
+    for cfg in cfgs:
+        for log in logs:
+            fails, steps = run_log(ctx, cfg, log, judge)
+            out.evaluations += len(steps)
+            for s_ in steps:
+                out.dist["op:" + s_.op["op"] + (":" + s_.op["via"] if s_.op.get("via") else "")] += 1
+                out.dist["res:" + s_.impl_res] += 1
+            out.keys.add(core.hash_str(json.dumps([pub(cfg), log], sort_keys=True, default=str)))
+            if fails:
+                i, (tag, text, finding) = fails[0]
+                out.fail(dict(cfg=pub(cfg), log=log[: i + 1]), f"[{tag}] fixed history, op {log[i]}: {text}", step=steps[-1].as_dict(), finding=finding)
+            elif steps and any(s_.problems for s_ in steps):
+                bad = next(s_ for s_ in steps if s_.problems)
+                out.disagree(dict(cfg=pub(cfg), log=log), f"fixed history {log}: {bad.problems[:2]}", step=bad.as_dict())
+
+
 def pub(cfg):
     return {k: v for k, v in cfg.items() if k in ("typed", "hook", "trees")}
 
